@@ -46,6 +46,18 @@ def gen_case(rng: Rng, i: int, tier: str):
         sess["chain"] = [dict(f) for f in docs[i % len(docs)]]
         if gen.chain_has_aes(sess["chain"]) and sess["password"] is None:
             sess["password"] = "secret"
+    rb = rng.sub("bcjtail")
+    if gen.dep_flags([sess.get("chain")], None, None).get("uses_pybcj") and rb.chance(0.5):
+        # directed: a branch-converting filter decoded piecewise - members dense with convertible CALL/JMP operands whose
+        # boundaries (and the read block / chunk limit) fall a few bytes before the end of the folder
+        nms = gen.gen_names(rb, 3, style="ascii", safe_prefix=True)
+        sizes = [rb.pick([1000, 4091, 4096, 4097, 32768 + rb.randint(-4, 4)]), rb.pick([0, 5, 16, 17]), rb.randint(1, 8)]
+        seed_ = rb.randrange(1 << 30)
+        ops_, skip = [], 0
+        for nm, ln in zip(nms, sizes):
+            ops_.append({"op": "writestr", "name": nm, "content": {"tex": "calls", "len": ln, "seed": seed_, "skip": skip}, "as": "bytes"})
+            skip += ln
+        sess["ops"] = ops_
     target = r.wpick([(4, "path"), (3, "stream"), (2, "bufobj"), (2, "mv")])
     vol = r.pick([64, 65, 100, 1000, 4096, 100000])
     if target == "mv":
